@@ -261,7 +261,7 @@ fn matcher_case(ctx: &mut Ctx, case: u64, rng: &mut Rng, keys: &[Vec<u8>], ns: &
 
 fn persistence_case(ctx: &mut Ctx, case: u64, rng: &mut Rng, scratch: &Scratch) {
     let file = rng.chance(1, 2);
-    let (mut store, path) = new_store(if file { Backend::File } else { Backend::Memory }, scratch);
+    let (mut store, mut path) = new_store(if file { Backend::File } else { Backend::Memory }, scratch);
     let docs = [namespace(1), namespace(2)];
     // documents start read-only or writable; capabilities are imported again along the way
     for d in &docs {
@@ -322,8 +322,30 @@ fn persistence_case(ctx: &mut Ctx, case: u64, rng: &mut Rng, scratch: &Scratch) 
             1 if file => {
                 store.flush().unwrap();
                 drop(store);
-                store = Store::persistent(path.as_ref().unwrap()).expect("reopen");
-                trace.push("reopen".into());
+                if rng.chance(1, 3) {
+                    // the same rows in a file of the on-disk format of iroh-docs 0.94..=0.98, which the
+                    // open converts: an upgrade is a reopen like any other (added after seeded change
+                    // agent-C15-8)
+                    let mut p = path.clone().unwrap();
+                    let newp = scratch.path("c15-old-format");
+                    match crate::oldfile::reopen_through_old_format(&mut p, newp) {
+                        Ok(s) => store = s,
+                        Err(Ok(text)) => {
+                            ctx.harness_error(text);
+                            return;
+                        }
+                        Err(Err(e)) => {
+                            ctx.violation(case, "reopen-of-old-format-file-failed", json!({"err": format!("{e:?}"), "trace": trace}));
+                            return;
+                        }
+                    }
+                    path = Some(p);
+                    trace.push("reopen through an old-format file".into());
+                    ctx.count("reopens_through_old_format_files", 1);
+                } else {
+                    store = Store::persistent(path.as_ref().unwrap()).expect("reopen");
+                    trace.push("reopen".into());
+                }
                 ctx.count("reopens", 1);
             }
             _ => {
